@@ -22,6 +22,10 @@ CHILDREN = {
     "swallow_then_started": [["try", [["wait", "g"]], {"cancel": [], "reraise": False}],
                              ["started", 1], ["started", 2]],
     "started_then_raise_now": [["started", 1], ["raise", "XS"]],
+    "cancelled_cleanup_started_twice": [["try", [["wait", "g"]],
+                                         {"cancel": [["scope", "SHc", {"shield": True},
+                                                      [["started", 1], ["cp"], ["started", 2]]]],
+                                          "reraise": True}]],
 }
 
 
@@ -110,6 +114,25 @@ def check(program, ex):
                         if o2 is not None and o2[0] == "cancel" and mm != m:
                             v.append(f"child {m} failed before started(): sibling {mm} was "
                                      f"cancelled although nothing else failed")
+    # "a second started() call is an error unless the caller has been cancelled in the
+    # meantime": when the caller's own scope is the only cancellation source, the child can only
+    # have been cancelled by start() itself, i.e. after the caller's wait had been cancelled -
+    # from then on every started() call must be accepted silently
+    cancels = [e[3] for e in log if e[2] == "envrun" and e[3].split(":")[0] in ("cancel", "hcancel")]
+    if cancels and all(c == "cancel:SI" for c in cancels) and not any(
+            e[2] == "x" and e[5] == "cancel" for e in log):
+        for s in starts:
+            m = s["child"]
+            calls = started.get(m, [])
+            if not calls:
+                continue
+            hit = next((i for i, e in enumerate(log) if e[2] == "e" and e[3] == m
+                        and e[5][0] == "cancel"), None)
+            if hit is not None and hit < calls[0][0]:
+                for (i, val, o) in calls:
+                    if o[0] != "ok":
+                        v.append(f"started({val}) by {m} raised {o} although the caller of start() "
+                                 f"had been cancelled before the first started() call")
     # errors raised by the child after the handshake (or while unwinding) must surface
     v.extend(c02.check(program, ex))
     return v
